@@ -47,12 +47,26 @@ class SubBehaviour(D.ScriptedBehaviour):
             aid = body[0]["aid"]
             on = bool(body[0]["ev"])
             chars = sorted(enc((c["aid"], c["iid"])) for c in body)
+            # the accessory may refuse some of the characteristics of a subscribe request (unknown instance id, no event
+            # permission, out of resources): HTTP 207 with one row per characteristic (or only the refused ones); what it
+            # was ASKED for is what the property talks about, what it registered decides which events it can send
+            rng = self.run.rng
+            refused = set()
+            if on and not self.hold_put and rng.random() < 0.25:
+                ids = [(c["aid"], c["iid"]) for c in body]
+                refused = set(rng.sample(ids, rng.randrange(1, len(ids) + 1)))
             for c in body:
-                conn.registrations[(c["aid"], c["iid"])] = bool(c["ev"])
+                if (c["aid"], c["iid"]) not in refused:
+                    conn.registrations[(c["aid"], c["iid"])] = bool(c["ev"])
             self.run.log("acc_reg", s=conn.id + 1, aid=aid, chars=chars, on=on)
             if not self.hold_put:
                 self.run.log("acc_put_reply", s=conn.id + 1)
-                conn.respond(req, 204, b"", None)
+                if refused:
+                    rows = [{"aid": c["aid"], "iid": c["iid"], "status": -70406 if (c["aid"], c["iid"]) in refused else 0}
+                            for c in body if (c["aid"], c["iid"]) in refused or rng.random() < 0.7]
+                    conn.respond(req, 207, A.hap_json({"characteristics": rows}), H.JSON)
+                else:
+                    conn.respond(req, 204, b"", None)
             return None
         return self.answer(conn, req)
 
@@ -190,6 +204,7 @@ class SubRun:
     def event(self, conn, n_events=1, split=False, bad=None):
         regs = sorted(c for c, on in conn.registrations.items() if on)
         out = b""
+        msgs = []
         s = conn.id + 1
         for _ in range(n_events):
             if bad:
@@ -204,7 +219,18 @@ class SubRun:
                 c = self.rng.choice(regs)
                 body = A.hap_json({"characteristics": [{"aid": c[0], "iid": c[1], "value": s * 1000 + n}]})
             out += H.event(body)
-        wire = conn.session.seal(out)
+            msgs.append(len(H.event(body)))
+        # how the accessory frames the burst: one frame, one frame per EVENT message, or small frames - a read that ends
+        # inside a frame may then hold complete frames in front of the partial one
+        framing = self.rng.choice(["one", "per_event", "small"]) if (n_events > 1 or split) else "one"
+        if framing == "per_event":
+            sizes = msgs
+        elif framing == "small":
+            k = self.rng.choice([16, 40, 100])
+            sizes = [k] * (len(out) // k) + ([len(out) % k] if len(out) % k else [])
+        else:
+            sizes = None
+        wire = conn.session.seal(out, sizes)
         if split and len(wire) > 2:
             cut = self.rng.randrange(1, len(wire))
             conn.send_raw(wire[:cut])
